@@ -419,7 +419,7 @@ theorem seqStep_ls (n : Node) (hk : kok n = true) (hmap : isMap n.kind = false) 
       split
       · split
         · exact hself _ _ (Nat.le_refl _)
-        · exact hself _ _ (Nat.le_refl _)
+        · split <;> exact hself _ _ (Nat.le_refl _)
       · split
         · exact hsub _ _ (fun x hx => mem_sortBy.mp hx) (fun a => by
             rw [cntL_eq_wsum, cntL_eq_wsum, wsum_sortBy]; exact Nat.le_refl _)
